@@ -56,7 +56,7 @@ DEEP = {
     "C01": ["CoseProofs.Deep.Chain", "CoseProofs.Deep.WireClosure", "CoseProofs.SignersTie", "CoseProofs.Deep.Signers", "CoseProofs.Deep.SignWireClosure", "CoseProofs.Deep.NestedBuckets", "CoseProofs.Deep.NestedClosures", "CoseProofs.Deep.CsigRoundTrip"],
     "C02": ["CoseProofs.Deep.Tbs", "CoseProofs.SignersTie"],
     "C03": ["CoseProofs.Deep.Tbs", "CoseProofs.Deep.Tamper", "CoseProofs.SignersTie", "CoseProofs.Deep.Signers"],
-    "C04": ["CoseProofs.FactsTie", "CoseProofs.Deep.Tamper"],
+    "C04": ["CoseProofs.FactsTie", "CoseProofs.Deep.Tamper", "CoseProofs.Deep.AlgWire"],
     "C05": ["CoseProofs.Deep.Reencode", "CoseProofs.Deep.Accept", "CoseProofs.Deep.SignMsg", "CoseProofs.Deep.NestedRoundTrip"],
     "C06": ["CoseProofs.Deep.NoPanic"],
     "C07": ["CoseProofs.Deep.Accept", "CoseProofs.Deep.Verifies"],
